@@ -14,7 +14,8 @@ RULE = ("A zoo transform (any class, leaf or composite of 2-4 range-compatible p
         "(knots, end-points, tail bounds, kinks) with probability 0.4, evaluated in float64. Oracle: per row, slogdet of the "
         "autograd Jacobian of that row's outputs w.r.t. that row's inputs inside the batch; finite-difference Jacobian as a "
         "second opinion on smooth maps at non-special rows; hand-chained sum over parts for composites. Non-trivial: the "
-        "row Jacobian is not a multiple of the identity. Distinct = distinct case JSON.")
+        "row Jacobian is not a multiple of the identity. One case in 40: Naive/LU linear layers with 64-144 features and weights scaled by "
+        "1e-3 / 1e3 (the determinant leaves the float64 range, its logarithm does not). Distinct = distinct case JSON.")
 ASSUMPTIONS = ["torch autograd differentiates the executed forward code correctly (cross-checked by finite differences on smooth maps)",
                "BatchNorm is evaluated in eval mode (its training-mode log-det treats batch statistics as constants by convention)",
                "UMNN log-det is quadrature-approximate: allowance 5e-3 per transformed feature"]
